@@ -1386,6 +1386,10 @@ class Frame(object):
                 return Const(ast.literal_eval(self.module.assigns[node.id]))
             except Exception:
                 pass
+            if isinstance(self.module.assigns[node.id], ast.Lambda):
+                return self.ev_Lambda(self.module.assigns[node.id], State())      # NAME = lambda ...: a module-level function
+            if isinstance(self.module.assigns[node.id], (ast.Dict, ast.Tuple, ast.List, ast.Set)):
+                return self.ev(self.module.assigns[node.id], State(), quiet=True)   # a module-level table (e.g. {Enum.A: ClassA, ...})
         return Sym(node.id)
 
     def ev_Attribute(self, node, st):
@@ -1504,7 +1508,22 @@ class Frame(object):
                 return Sym(ast.unparse(node))
         return Sym('%r.format(%s)' % (tmpl, ', '.join(render(a) for a in args)))
 
+    def _display(self, node, st):
+        out = []
+        for e in node.elts:
+            if isinstance(e, ast.Starred):
+                sv = self.ev(e.value, st)
+                if isinstance(sv, ListV) and not any(isinstance(x, EachV) for x in sv.elems):
+                    out.extend(sv.elems)            # (a, *(b, c)) is (a, b, c)
+                    continue
+                out.append(Sym('*' + render(sv)))
+            else:
+                out.append(self.ev(e, st))
+        return out
+
     def ev_Tuple(self, node, st):
+        if any(isinstance(e, ast.Starred) for e in node.elts):
+            return ListV(self._display(node, st), 'tuple')
         return ListV([self.ev(e, st) for e in node.elts], 'tuple')
 
     def ev_List(self, node, st):
@@ -1518,11 +1537,35 @@ class Frame(object):
         for k, v in zip(node.keys, node.values):
             parts.append('%s: %s' % (self.text(k, st) if k is not None else '**', self.text(v, st)))
         text = '{%s}' % ', '.join(parts)
-        if node.keys and all(k is not None for k in node.keys):
-            pairs = [(self.ev(k, st, quiet=True), self.ev(v, st, quiet=True)) for k, v in zip(node.keys, node.values)]
+        if node.keys:
+            pairs = []
+            for k, v in zip(node.keys, node.values):
+                vv = self.ev(v, st, quiet=True)
+                if k is None:
+                    if not isinstance(vv, DictV):
+                        return Sym(text)
+                    pairs.extend(vv.pairs)          # {**d, ...} with a known d
+                else:
+                    pairs.append((self.ev(k, st, quiet=True), vv))
             if all(isinstance(k, Const) for k, _ in pairs):
                 return DictV(text, pairs)
         return Sym(text)
+
+    def _dict_ctor(self, fname, args, kwargs):
+        """dict.fromkeys(<known keys>, v) / dict([(k, v), ...]) / dict(<known dict>) with constant keys -> DictV (else None)."""
+        if kwargs:
+            return None
+        pairs = None
+        if fname == 'dict.fromkeys' and 1 <= len(args) <= 2 and isinstance(args[0], ListV):
+            pairs = [(k, args[1] if len(args) == 2 else Const(None)) for k in args[0].elems]
+        elif fname == 'dict' and len(args) == 1 and isinstance(args[0], DictV):
+            pairs = list(args[0].pairs)
+        elif fname == 'dict' and len(args) == 1 and isinstance(args[0], ListV) and \
+                all(isinstance(e, ListV) and len(e.elems) == 2 for e in args[0].elems):
+            pairs = [(e.elems[0], e.elems[1]) for e in args[0].elems]
+        if pairs is None or not all(isinstance(k, Const) for k, _ in pairs):
+            return None
+        return DictV('%s(%s)' % (fname, ', '.join(render(a) for a in args)), pairs)
 
     def ev_Starred(self, node, st):
         return Sym('*' + self.text(node.value, st))
@@ -1726,6 +1769,21 @@ class Frame(object):
         return Sym('(%s + %s)' % (render(l), render(r)))
 
     def binop(self, op, l, r):
+        if isinstance(op, ast.Mod) and isinstance(l, Bytes):
+            # b'%b..%b' % (a, b): the literal parts with the operands spliced in (only %b / %s conversions)
+            fits = merge_consts(l.items)
+            fmt = fits[0][1] if len(fits) == 1 and fits[0][0] == 'C' else None
+            ops = r.elems if isinstance(r, ListV) and r.kind == 'tuple' else [r]
+            if fmt is not None and b'%%' not in fmt:
+                parts = re.split(rb'%[bs]', fmt)
+                if len(parts) == len(ops) + 1 and not any(b'%' in p for p in parts) and not any(isinstance(o, EachV) for o in ops):
+                    out = []
+                    for p_, o in zip(parts, ops + [None]):
+                        if p_:
+                            out.append(('C', p_))
+                        if o is not None:
+                            out.extend(as_items(o))
+                    return Bytes(out)
         if isinstance(op, ast.Mult):
             for a, b in ((l, r), (r, l)):
                 if isinstance(a, Bytes):
@@ -1855,6 +1913,40 @@ class Frame(object):
                 not node.keywords and not func.keywords:
             items = [self.ev(ast.copy_location(ast.Subscript(value=node.args[0], slice=k, ctx=ast.Load()), node), st) for k in func.args]
             return items[0] if len(items) == 1 else ListV(items, 'tuple')
+        if fname in ('dict', 'dict.fromkeys') and not (fname == 'dict' and 'dict' in st.env):
+            dv = self._dict_ctor(fname, args, kwargs)
+            if dv is not None:
+                record(fname)
+                return dv
+        if fname == 'setattr' and len(args) == 3 and not kwargs and isinstance(args[1], Const) and isinstance(args[1].value, str) and \
+                re.match(r'^[A-Za-z_][A-Za-z0-9_]*$', args[1].value) and 'setattr' not in st.env:
+            # setattr(obj, '<constant name>', v) is the attribute assignment obj.<name> = v
+            record(fname)
+            tgt = ast.copy_location(ast.Attribute(value=node.args[0], attr=args[1].value, ctx=ast.Store()), node)
+            self.assign(tgt, args[2], st, node)
+            return Const(None)
+        if fname is not None and fname.startswith('operator.') and len(args) == 2 and not kwargs and fname[9:] in OPERATOR_FUNCS:
+            opn = OPERATOR_FUNCS[fname[9:]]()           # operator.or_(a, b) is a | b
+            return self.add(args[0], args[1]) if isinstance(opn, ast.Add) else self.binop(opn, args[0], args[1])
+        if fname in ('functools.partial', 'partial') and args and not isinstance(args[0], (Bytes, ListV)):
+            # partial(f, a, k=v): an opaque symbol by its text that remembers what it will call
+            record(fname)
+            pv = Sym('%s(%s)' % (fname, self._argtext(args, kwargs)))
+            pv.partial = (args[0], list(args[1:]), dict(kwargs))
+            return pv
+        pv = st.env.get(func.id) if isinstance(func, ast.Name) else (self.ev(func, st, quiet=True) if isinstance(func, (ast.Call, ast.Subscript)) else None)
+        if getattr(pv, 'partial', None) is not None:
+            target, pargs, pkw = pv.partial
+            allargs, allkw = pargs + args, dict(pkw, **kwargs)
+            if isinstance(target, (FuncV, LambdaV)):
+                record(render(target))
+                r = self._maybe_inline(target.fi, None, allargs, allkw, st, node, closure=target.closure_env, force=True)
+                if r is not None:
+                    return r
+            ft = render(target)
+            st.calls.append((ft, [render(a) for a in allargs], {k: render(v) for k, v in allkw.items()}, node.lineno, node))
+            st.events.append(('call', ft, [render(a) for a in allargs], {k: render(v) for k, v in allkw.items()}, node.lineno))
+            return Sym('%s(%s)' % (ft, self._argtext(allargs, allkw)))
         # ---- method calls on interpreted values
         if isinstance(func, ast.Attribute):
             recv = self.ev(func.value, st)
@@ -2018,7 +2110,7 @@ class Frame(object):
                 record(callee.ci.name)
                 return self._construct(callee.ci, args, kwargs, st, node)
             if isinstance(callee, Sym) and callee.text != n and \
-                    (re.match(r'^[\w.()]+$', callee.text) or (re.match(r'^[A-Za-z_][\w.]*\(.*\)$', callee.text) and _balanced(callee.text))):
+                    (re.match(r'^[\w.()<>#]+$', callee.text) or (re.match(r'^[A-Za-z_][\w.]*\(.*\)$', callee.text) and _balanced(callee.text))):
                 # a local that holds a callable value (bound method, function reference, looked-up class): the call is a call of that value
                 record(callee.text)
                 return Sym('%s(%s)' % (callee.text, self._argtext(args, kwargs)))
@@ -2104,6 +2196,13 @@ class Frame(object):
                 for e in reversed(args[0].elems):
                     rev.append(EachV(e.var, 'reversed(%s)' % e.coll, e.elems) if isinstance(e, EachV) else e)
                 return ListV(rev, args[0].kind)
+            if callee is None and isinstance(self.module.assigns.get(n), ast.Lambda):
+                lv = self.ev_Lambda(self.module.assigns[n], State())
+                if isinstance(lv, LambdaV):
+                    record(n)
+                    r = self._maybe_inline(lv.fi, None, args, kwargs, st, node, closure=lv.closure_env, force=True)
+                    if r is not None:
+                        return r
             r = self.prog.lookup(self.module, n)
             if isinstance(r, ClassInfo):
                 record(n)
@@ -2422,6 +2521,10 @@ OPS = {ast.Add: '+', ast.Sub: '-', ast.Mult: '*', ast.Div: '/', ast.FloorDiv: '/
        ast.LShift: '<<', ast.RShift: '>>', ast.BitOr: '|', ast.BitAnd: '&', ast.BitXor: '^', ast.MatMult: '@',
        ast.Eq: '==', ast.NotEq: '!=', ast.Lt: '<', ast.LtE: '<=', ast.Gt: '>', ast.GtE: '>=', ast.Is: 'is',
        ast.IsNot: 'is not', ast.In: 'in', ast.NotIn: 'not in'}
+
+OPERATOR_FUNCS = {'add': ast.Add, 'sub': ast.Sub, 'mul': ast.Mult, 'floordiv': ast.FloorDiv, 'mod': ast.Mod, 'lshift': ast.LShift,
+                  'rshift': ast.RShift, 'or_': ast.BitOr, 'and_': ast.BitAnd, 'xor': ast.BitXor, 'pow': ast.Pow}
+
 
 def _small_pow(a, b):
     if isinstance(a, int) and isinstance(b, int) and 0 <= b <= 64 and abs(a) <= 65536:
